@@ -17,7 +17,23 @@ Import ListNotations.
 EXC = {'TypeError': 0, 'ValueError': 1}
 
 
-def make_ds(Dataset, shape, kinds, layout='C'):
+def grid(base, how):
+    '''the bin values of one dimension: positions matter, not values (decreasing grids, a repeated
+    edge = zero-width cell, a periodic grid that comes back to its first value, unsorted values)'''
+    base = base.copy()
+    n = len(base)
+    if how == 'dec':
+        return base[::-1].copy()
+    if how == 'rep' and n >= 3:
+        base[n // 2] = base[n // 2 - 1]
+    elif how == 'per' and n >= 3:
+        base[-1] = base[0]
+    elif how == 'uns' and n >= 3:
+        base = np.concatenate([base[n // 2:], base[:n // 2]])
+    return base
+
+
+def make_ds(Dataset, shape, kinds, layout='C', grids=None):
     size = int(np.prod(shape)) if shape else 1
     value = np.arange(size, dtype=float).reshape(shape)
     error = value + 1000.
@@ -38,10 +54,11 @@ def make_ds(Dataset, shape, kinds, layout='C'):
     if kinds is not None:
         bins = OrderedDict()
         for k, (n, kind) in enumerate(zip(shape, kinds)):
+            how = grids[k] if grids else 'inc'
             if kind == 'e':
-                bins[f'b{k}'] = np.arange(n + 1, dtype=float) + 100. * k
+                bins[f'b{k}'] = grid(np.arange(n + 1, dtype=float) + 100. * k, how)
             else:
-                bins[f'b{k}'] = np.arange(n, dtype=float) + 0.5 + 100. * k
+                bins[f'b{k}'] = grid(np.arange(n, dtype=float) + 0.5 + 100. * k, how)
     d = Dataset(value, error, bins=bins, name='nm', what='wh')
     if layout == 'M' and size:
         # a masked dataset (Dataset.mask): every third cell masked
@@ -167,6 +184,9 @@ def gen_cases(ctx):
                 if n <= 3 or (a is not None and a < 0):
                     cases.append({'shape': [n], 'kinds': None if kind is None else [kind],
                                   'ops': [['get', [[a, b]]]], 'step1': True})
+                if kind is not None and 3 <= n <= 4:
+                    cases.append({'shape': [n], 'kinds': [kind], 'ops': [['get', [[a, b]]]],
+                                  'grids': [GRIDS[(len(cases) + n) % len(GRIDS)]]})
                 if n <= 4 and (a is not None or b is not None):
                     # bounds that are integers without being Python ints (what np.searchsorted,
                     # np.argmax, an element of an index array return), bare or in a 1-tuple
@@ -209,6 +229,8 @@ def gen_cases(ctx):
             case['imask'] = rng.randrange(1, 4)        # start only / stop only / both
         if rng.random() < 0.3:
             case['tuple1'] = True
+        if kinds is not None and rng.random() < 0.35:
+            case['grids'] = [rng.choice(GRIDS) for _ in range(nd)]
         cases.append(case)
     ctx.count('random_nd_chains', nrand)
     return cases
@@ -224,6 +246,7 @@ class Idx:
         return self.val
 
 
+GRIDS = ['dec', 'rep', 'per', 'uns']
 ITYPES = ['int64', 'int32', 'intp', 'int8', 'index']
 ICONV = {None: lambda a: a,
          'int64': lambda a: None if a is None else np.int64(a),
@@ -235,7 +258,7 @@ ICONV = {None: lambda a: a,
 
 def run_impl(ctx, case, triples):
     from valjean.eponine.dataset import Dataset
-    d = make_ds(Dataset, tuple(case['shape']), case['kinds'], case.get('layout', 'C'))
+    d = make_ds(Dataset, tuple(case['shape']), case['kinds'], case.get('layout', 'C'), case.get('grids'))
     nontrivial = False
     for op in case['ops']:
         before = snap(d)
